@@ -302,6 +302,24 @@ func Gen(r *simcore.Rand, prop string) *Plan {
 			ntx = 1
 		}
 		g.m.BeginBlock(rules)
+		before := g.m.World().copy()
+		// Scenario (pre-Cancun): a contract with committed storage clears all its slots
+		// in one transaction, an intermediate root is computed, and a later transaction
+		// of the same block self-destructs it; later blocks tend to re-create it.
+		clearTx, killTx, victim := -1, -1, -1
+		if rules < RCancun && ntx >= 2 && r.Bool(0.35) {
+			var c []int
+			for i := 1; i < NA; i++ {
+				if acc := before[addrs[i]]; acc != nil && len(acc.Stor) > 0 && len(acc.Code) > 0 {
+					c = append(c, i)
+				}
+			}
+			if len(c) > 0 {
+				victim = c[r.Intn(len(c))]
+				clearTx = r.Intn(ntx - 1)
+				killTx = r.Range(clearTx+1, ntx-1)
+			}
+		}
 		copyAt := -1
 		if prop == "C14" && r.Bool(0.45) {
 			copyAt = r.Intn(ntx + 1)
@@ -309,6 +327,13 @@ func Gen(r *simcore.Rand, prop string) *Plan {
 		var fork *exec
 		mid := copyAt >= 0 && copyAt < ntx && r.Bool(0.4)
 		for t := 0; t < ntx; t++ {
+			if t == clearTx {
+				g.post = []Op{{K: "clear", A: victim}}
+				g.forceRoot = true
+			}
+			if t == killTx {
+				g.post = []Op{{K: "destruct", A: victim, B: r.Intn(NA)}}
+			}
 			if t == copyAt && !mid {
 				fork = &exec{m: g.m.Fork()}
 			}
@@ -335,6 +360,11 @@ func Gen(r *simcore.Rand, prop string) *Plan {
 			nct := r.Range(0, 3)
 			for t := 0; t < nct; t++ {
 				blk.CopyTxs = append(blk.CopyTxs, genTx(r, fork, prop, copyAt+len(blk.CopyTxs)))
+			}
+		}
+		for i := 1; i < NA; i++ {
+			if acc := before[addrs[i]]; acc != nil && len(acc.Stor) > 0 && g.m.World()[addrs[i]] == nil {
+				g.ghost = append(g.ghost, i)
 			}
 		}
 		if prop == "C14" {
@@ -380,6 +410,9 @@ func genTxMid(r *simcore.Rand, g *exec, prop string, ti int, midAt int, onMid fu
 		tx.Root = r.Bool(0.6)
 	} else {
 		tx.Root = r.Bool(0.15)
+	}
+	if g.forceRoot {
+		tx.Root, g.forceRoot = true, false
 	}
 	g.endTx(&tx)
 	return tx
@@ -431,6 +464,12 @@ func genOpsMid(r *simcore.Rand, g *exec, prop string, tx *Tx, midAt int, onMid f
 		midAt = 0
 		mid()
 	}
+	for _, op := range g.post {
+		if g.do(op) {
+			tx.Ops = append(tx.Ops, op)
+		}
+	}
+	g.post = nil
 }
 
 // pickAddr prefers addresses satisfying ok.
@@ -490,6 +529,7 @@ func genOp(r *simcore.Rand, g *exec, prop string, lastStore *Op) Op {
 		12,       // 17 get
 		wRestore, // 18 restore a slot to its tx-start value
 		2,        // 19 touch
+		1,        // 20 clear all slots
 	) {
 	case 0:
 		op.K = "add"
@@ -525,6 +565,12 @@ func genOp(r *simcore.Rand, g *exec, prop string, lastStore *Op) Op {
 	case 8:
 		op.K = "create"
 		op.A = pickAddr(r, m.CanCreate)
+		if len(g.ghost) > 0 && r.Bool(0.6) {
+			// re-create an address whose previous incarnation had storage
+			if i := g.ghost[r.Intn(len(g.ghost))]; m.CanCreate(addrs[i]) {
+				op.A = i
+			}
+		}
 	case 9:
 		op.K = "destruct"
 		op.A = pickAddr(r, func(a common.Address) bool {
@@ -575,6 +621,12 @@ func genOp(r *simcore.Rand, g *exec, prop string, lastStore *Op) Op {
 	case 19:
 		op.K = "add"
 		op.V = 0
+	case 20:
+		op.K = "clear"
+		op.A = pickAddr(r, func(a common.Address) bool {
+			acc := m.acct(a)
+			return acc != nil && len(acc.Stor) > 0 && m.CanStore(a)
+		})
 	}
 	return op
 }
